@@ -150,7 +150,7 @@ int main() {
   size_t total = 0, bytes = 0;
   static const uint32_t sizes[] = {0, 1, 3, 8, 100, 1399, 1400, 1401, 1396, 2800, 5000, 70000};
   for (int ph = 0; ph < nphases; ph++) {
-    int count = (int)wl_range(0, tier() ? 120 : 40);
+    int count = (int)wl_range(0, tier() ? 60 : 40);   // (120 made thorough runs outlast the real-time watchdog on a loaded machine)
     std::map<std::array<int, 3>, uint32_t> seq; std::map<std::array<int, 3>, int> owner;
     for (int i = 0; i < count; i++) {
       MsgPlan m; m.phase = ph; m.src = (int)wl_range(0, nhosts - 1); m.dst = (int)wl_range(0, nhosts - 1);
